@@ -1522,10 +1522,20 @@ class TLSConnection(TLSRecordLayer):
                             "when client does not support it."):
                         yield result
 
-                if not cert_ext.delegated_credential.verify(
-                        cert_entry,
-                        clientHello,
-                        certificate_verify):
+                try:
+                    dc_valid = cert_ext.delegated_credential.verify(
+                        cert_entry, clientHello, certificate_verify)
+                except TLSIllegalParameterException as alert:
+                    for result in self._sendError(
+                            AlertDescription.illegal_parameter,
+                            str(alert)):
+                        yield result
+                except TLSDecryptionFailed as alert:
+                    for result in self._sendError(
+                            AlertDescription.decrypt_error,
+                            str(alert)):
+                        yield result
+                if not dc_valid:
                     for result in self._sendError(
                             AlertDescription.decrypt_error,
                             "server Delegated Credential "
